@@ -40,7 +40,7 @@ F == {FALSE}
 MenuLedger == Installs({"cA", "cB"}, B, B, F, F, F) \cup Upgrades({"cA", "cB"}, B, B, {0, 1, 2}, F, F, F)
               \cup Rollbacks({0, 1, 2}, {0, 2}, F, F, F) \cup Uninstalls(B, F, F)
 \* cluster family (C02): growing / shrinking / changing / keep-toggling manifests
-MenuCluster == Installs({"cA", "cB", "cC", "cK"}, B, F, F, F, F) \cup Upgrades({"cA", "cB", "cC", "cK"}, F, F, {0}, F, F, F)
+MenuCluster == Installs({"cA", "cB", "cC", "cK"}, B, F, F, B, F) \cup Upgrades({"cA", "cB", "cC", "cK"}, F, F, {0}, F, B, F)
                \cup Rollbacks({0, 1}, {0}, F, F, F) \cup Uninstalls(B, F, F)
 \* fault family (C03): atomic x cleanup x no-hooks
 MenuFault == Installs({"cA", "cH"}, F, B, B, F, F) \cup Upgrades({"cB", "cI", "cC"}, B, B, {0}, B, F, F)
@@ -60,7 +60,7 @@ MenuAll == MenuLedger \cup MenuCluster \cup MenuFault \cup MenuDry \cup MenuOwn 
 \* smaller menus for the exhaustive configurations (the generators use the large ones)
 XLedger == Installs({"cA"}, B, B, F, F, F) \cup Upgrades({"cB"}, B, F, {0, 2}, F, F, F)
            \cup Rollbacks({0, 1}, {0, 2}, F, F, F) \cup Uninstalls(B, F, F)
-XCluster == Installs({"cA", "cC"}, F, F, F, F, F) \cup Upgrades({"cB", "cC", "cK"}, F, F, {0}, F, F, F)
+XCluster == Installs({"cA", "cC"}, F, F, F, B, F) \cup Upgrades({"cB", "cC", "cK"}, F, F, {0}, F, B, F)
             \cup Rollbacks({0}, {0}, F, F, F) \cup Uninstalls(F, F, F)
 XFault == Installs({"cA"}, F, B, F, F, F) \cup Upgrades({"cB"}, B, B, {0}, F, F, F)
           \cup Rollbacks({0}, {0}, F, B, F) \cup Uninstalls(F, F, F)
